@@ -36,7 +36,7 @@ def analyses():
     d = {"T-PIN": tpin.TPin}
     for modname, names in (("fconv", ["F-CONV"]), ("tref", ["T-REF"]), ("trc", ["T-RC"]),
                            ("tdirty", ["T-DIRTY"]), ("malloc", ["M-ALLOC"]), ("fsort", ["F-SORT"]),
-                           ("tuse", ["T-USE"])):
+                           ("tuse", ["T-USE"]), ("midx", ["M-IDX"])):
         try:
             mod = __import__("cvc." + modname, fromlist=["x"])
         except ImportError:
@@ -86,10 +86,13 @@ def _work(args):
         if kind == "T-USE":
             from . import tuse
             ex = tuse.houdini(tu, fname, timeout)
+        elif kind == "M-IDX":
+            from . import midx
+            ex = midx.houdini(tu, fname)
         else:
             ex = cls(tu, fname)
             ex.run()
-        if kind != "T-USE" and hasattr(ex, "pointer_locals") and any(":loop-" in o.name for o in ex.obls) and not _all_proved(ex, timeout):
+        if kind not in ("T-USE", "M-IDX") and hasattr(ex, "pointer_locals") and any(":loop-" in o.name for o in ex.obls) and not _all_proved(ex, timeout):
             # Houdini-style choice of the loop invariant: which pointer locals
             # may be pinned at a loop head (hand-over-hand descent).  The
             # strongest candidate under which every obligation discharges wins.
